@@ -6,6 +6,7 @@
 (*  mal    : for a few base tuples — truncation at every field boundary -1/0/+1,    *)
 (*           trailing bytes, every declared length -1/+1, |c| = 2^31, 2^32-1;       *)
 (*  big    : (thorough) one-at-a-time large sizes: 2^24-1, z = 65535, |a| = Z_I ... *)
+(*  heapmax: z = 65535 with one byte of RW data (heap of 2^16 pages) in every tier.  *)
 (* In the quick tier `valid` is a Seed-chosen fifteenth of the product (Pick).       *)
 EXTENDS StdInit, Json, TLC, SequencesExt
 CONSTANTS OutFile, Tier, Seed
@@ -71,7 +72,13 @@ Big == IF Tier = "thorough" THEN {Case("big", Blob(t[1], t[2], t[3], t[4], 1), A
 ArgSizes == {2, 8191, 8192, 8193, 12288, 65535, 65536, 65537, 131072}
 Args == {Case("args", Blob(ol, 1, 1, 1, 1), Arg(al, 6)) : ol \in {0, 4097}, al \in ArgSizes}
 
-Cases == Valid \cup Shaped \cup MalCut \cup MalTrail \cup MalField \cup Big \cup Args
+\* the largest heap: P(|w|)/Z_P + z reaches 2^16 pages (a 16-bit page count would wrap).  One case in every
+\* tier (it maps 268 MB in the code under test), the neighbours in the thorough tier
+HeapMax == {Case("heapmax", Blob(0, 1, 65535, 0, 0), Arg(0, 7))}
+           \cup (IF Tier = "thorough" THEN {Case("heapmax", Blob(0, 4097, 65534, 0, 0), Arg(0, 7)), Case("heapmax", Blob(1, 0, 65535, 1, 0), Arg(1, 7)),
+                                            Case("heapmax", Blob(0, 4096, 65535, 0, 0), Arg(0, 7))} ELSE {})
+
+Cases == HeapMax \cup Valid \cup Shaped \cup MalCut \cup MalTrail \cup MalField \cup Big \cup Args
 ASSUME ndJsonSerialize(OutFile, SetToSeq(Cases))
 ASSUME PrintT(<<"GEN", Cardinality(Cases), Cardinality(Valid)>>)
 GenInit == x = 0
